@@ -75,3 +75,10 @@ def red_chunk(x):
 
 def red_agg(x):
     return x.sum()
+
+
+def window_sum(df, before=0, after=0):
+    """centered-ish rolling sum over [i-before, i+after]; only complete windows are kept non-null"""
+    w = before + after + 1
+    out = df.astype("float64").rolling(w, min_periods=w).sum().shift(-after)
+    return out
